@@ -63,7 +63,7 @@ enum OEv { Bind, Ready(bool), Define(u64, Ev), DefChanged(u64), Query(Qry) }
 struct RoomInfo { id: Uid, groups: Vec<(u64, Uid)>, evs: Vec<Ev>, snapshot: Option<Arc<Room>> }
 #[allow(dead_code)]
 struct NodeInfo { id: Uid, room: Option<u64>, entity: String, mdate: i64 }
-struct EdgeInfo { src: u64, dest: Uid, cdate: i64 }
+struct EdgeInfo { src: u64, dest: Uid, label: String, cdate: i64 }
 struct World {
     app: GraphDatabaseService,
     events: broadcast::Receiver<Event>,
@@ -85,6 +85,38 @@ impl World {
     fn room_index(&self, id: &Uid) -> u64 { self.rooms.iter().position(|r| &r.id == id).map(|p| p as u64 + 1).unwrap_or(999) }
     fn room_uid(&self, r: u64) -> Uid { if r >= 1 && (r as usize) <= self.rooms.len() { self.rooms[r as usize - 1].id } else { uid_of(r) } }
     fn node_uid(&self, n: u64) -> Uid { if n >= 1 && (n as usize) <= self.nodes.len() { self.nodes[n as usize - 1].id } else { uid_of(7000 + n) } }
+
+    /// every row of _node and _edge, read with plain SQL through the instance's reader connection (not through any of
+    /// the filtered data sources): rows the harness did not create itself (room / group / member / right rows, deleted
+    /// persons' remains) are appended to its tables, with the room the row really has
+    async fn refresh_tables(&mut self) {
+        let (tx, rx) = tokio::sync::oneshot::channel::<(Vec<(Uid, Option<Uid>, String, i64)>, Vec<(Uid, Uid, String, i64)>)>();
+        self.app.db.reader.send_async(Box::new(move |conn: &rusqlite::Connection| {
+            let mut nodes = vec![]; let mut edges = vec![];
+            { let mut st = conn.prepare("SELECT id, room_id, _entity, mdate FROM _node ORDER BY rowid").unwrap();
+              let mut rows = st.query([]).unwrap();
+              while let Some(r) = rows.next().unwrap() { nodes.push((r.get(0).unwrap(), r.get(1).unwrap(), r.get(2).unwrap(), r.get(3).unwrap())); } }
+            { let mut st = conn.prepare("SELECT src, dest, label, cdate FROM _edge ORDER BY cdate, src, label, dest").unwrap();
+              let mut rows = st.query([]).unwrap();
+              while let Some(r) = rows.next().unwrap() { edges.push((r.get(0).unwrap(), r.get(1).unwrap(), r.get(2).unwrap(), r.get(3).unwrap())); } }
+            let _ = tx.send((nodes, edges));
+        })).await.unwrap();
+        let (nodes, edges) = rx.await.unwrap();
+        for (id, room, entity, mdate) in nodes {
+            if !self.nodes.iter().any(|n| n.id == id) {
+                let room = room.map(|r| self.room_index(&r));
+                self.nodes.push(NodeInfo { id, room, entity, mdate });
+            }
+        }
+        for (src, dest, label, cdate) in edges {
+            let si = match self.nodes.iter().position(|n| n.id == src) { Some(p) => p as u64 + 1, None => continue };
+            if !self.edges.iter().any(|e| e.src == si && e.dest == dest && e.label == label) {
+                self.edges.push(EdgeInfo { src: si, dest, label, cdate });
+            }
+        }
+    }
+    /// sources whose outgoing references change when a definition entry is added (room and group rows)
+    fn volatile_src(&self, n: u64) -> bool { let e = &self.nodes[n as usize - 1].entity; !(e == &self.ent_person || e == &self.ent_pet) }
 
     /// waits for the RoomModified event of that room (the instance publishes one per accepted definition change)
     async fn await_room_event(&mut self, room: &Uid) -> Option<Arc<Room>> {
@@ -247,7 +279,7 @@ async fn build_world(tag: u64, profiles: &[Profile], with_data: bool) -> World {
                 w.ent_pet = n._entity.clone();
                 w.nodes.push(NodeInfo { id: pet.node_to_mutate.id, room: Some(r), entity: n._entity.clone(), mdate: n.mdate });
             }
-            for e in &pe.edge_insertions { w.edges.push(EdgeInfo { src: person_idx, dest: e.dest, cdate: e.cdate }); }
+            for e in &pe.edge_insertions { w.edges.push(EdgeInfo { src: person_idx, dest: e.dest, label: e.label.clone(), cdate: e.cdate }); }
             // one more row that is then deleted, and one reference that is removed: tombstones of this room
             w.set_clock(w.del_day + ri as i64 * 10);
             let mut p = P::default();
@@ -374,7 +406,7 @@ async fn ask(w: &World, c: &mut Conn, q: &Qry) -> (i64, Vec<u64>) {
         Qry::Nodes(_, _) => for b in stream(&got) { match bincode::deserialize::<Vec<Node>>(&b) {
             Ok(l) => for x in l { items.insert(w.nodes.iter().position(|n| n.id == x.id).map(|p| p as u64 + 1).unwrap_or(997)); }, Err(_) => bad = true } },
         Qry::Edges(_, _) => for b in stream(&got) { match bincode::deserialize::<Vec<Edge>>(&b) {
-            Ok(l) => for x in l { items.insert(w.edges.iter().position(|e| w.nodes[e.src as usize - 1].id == x.src && e.dest == x.dest).map(|p| p as u64 + 1).unwrap_or(997)); }, Err(_) => bad = true } },
+            Ok(l) => for x in l { items.insert(w.edges.iter().position(|e| w.nodes[e.src as usize - 1].id == x.src && e.dest == x.dest && e.label == x.label).map(|p| p as u64 + 1).unwrap_or(997)); }, Err(_) => bad = true } },
     }
     if bad { return (5, vec![]); }
     match q { Qry::Nodes(..) | Qry::Edges(..) => (2, items.into_iter().collect()), _ => (2, rooms.into_iter().collect()) }
@@ -393,6 +425,7 @@ struct Session { coq_events: Vec<String>, obs: Vec<i64>, stats: HashMap<String, 
 
 async fn run_session(w: &mut World, key_index: u64, evs: &[(i64, OEv)]) -> (String, Session) {
     // the instance as the case sees it at the start of the connection
+    w.refresh_tables().await;
     let defs: Vec<String> = w.rooms.iter().enumerate().map(|(i, r)| format!("({}, {})", gn(i as u64 + 1), glist(&r.evs.iter().map(|e| e.coq()).collect::<Vec<_>>()))).collect();
     let nodes: Vec<String> = w.nodes.iter().enumerate().map(|(i, n)| format!("{{| n_id := {}; n_room := {} |}}", gn(i as u64 + 1), gon(n.room))).collect();
     let edges: Vec<String> = w.edges.iter().enumerate().map(|(i, e)| format!("{{| e_id := {}; e_src := {}; e_cdate := {} |}}", gn(i as u64 + 1), gn(e.src), gz(e.cdate))).collect();
@@ -448,14 +481,21 @@ fn gen_query(rng: &mut Rng, w: &World, now: i64) -> Qry {
             Qry::Room(k, r, ent, date)
         }
         12..=15 => {
-            let n = 1 + rng.below(4);
+            // batches of 1..250 identifiers: rows of the room, rows of other rooms, rows of other entities (room / group /
+            // member rows), rows in no room, repeated and unknown identifiers
+            let n = match rng.below(10) { 0..=3 => 1 + rng.below(4), 4..=6 => 5 + rng.below(36), _ => 41 + rng.below(210) };
             let nn = w.nodes.len() as u64;
-            Qry::Nodes(room(rng), (0..n).map(|_| if rng.chance(1, 10) { 90 } else { 1 + rng.below(nn.max(1)) }).collect())
+            Qry::Nodes(room(rng), (0..n).map(|_| if rng.chance(1, 12) { 9000 + rng.below(50) } else { 1 + rng.below(nn.max(1)) }).collect())
         }
         _ => {
-            let n = 1 + rng.below(3);
+            let n = match rng.below(10) { 0..=3 => 1 + rng.below(3), 4..=6 => 4 + rng.below(30), _ => 34 + rng.below(217) };
             let nn = w.nodes.len() as u64;
-            Qry::Edges(room(rng), (0..n).map(|_| { let x = 1 + rng.below(nn.max(1)); (x, if rng.chance(2, 3) { 0 } else { BASE - 9 * DAY + rng.range(-5, 40) }) }).collect())
+            let stable: Vec<u64> = (1..=nn).filter(|x| !w.volatile_src(*x)).collect();
+            Qry::Edges(room(rng), (0..n).map(|_| {
+                let x = if rng.chance(1, 12) || stable.is_empty() { 9000 + rng.below(50) } else { *rng.pick(&stable) };
+                let d = match rng.below(6) { 0..=2 => 0, 3 => BASE - 9 * DAY + rng.range(-5, 40), 4 => w.edges.iter().find(|e| e.src == x).map(|e| e.cdate + rng.range(-1, 1)).unwrap_or(0), _ => BASE + 400 * DAY };
+                (x, d)
+            }).collect())
         }
     }
 }
@@ -536,6 +576,14 @@ async fn main() {
       evs.push(OEv::DefChanged(1)); evs.push(OEv::Query(Qry::Nodes(1, vec![1]))); evs.push(OEv::Ready(true)); evs.push(OEv::Query(Qry::RoomList)); evs.push(OEv::Bind); evs.push(OEv::Ready(false)); evs.push(OEv::Query(Qry::RoomList)); evs.push(OEv::Ready(true)); evs.push(OEv::Query(Qry::RoomList));
       for r in [1u64, 2, 3, 4, 5, UNKNOWN] { evs.extend(all_room_kinds(r, day9 + (r as i64 - 1) * 10)); evs.push(OEv::Query(Qry::Nodes(r, vec![1, 2, 4, 5, 7, 10, 16, 90]))); evs.push(OEv::Query(Qry::Edges(r, vec![(1, 0), (4, 0), (7, 0), (10, 0)]))); }
       evs.push(OEv::Query(Qry::Fingerprint)); evs.push(OEv::Query(Qry::Prove));
+      // every row of _node / every source of _edge (room, group, member and right rows included), asked for under every room
+      w.refresh_tables().await;
+      let all: Vec<u64> = (1..=w.nodes.len() as u64).chain([9001, 9002]).collect();
+      for r in [1u64, 2, 3, 4, 5, UNKNOWN] {
+          evs.push(OEv::Query(Qry::Nodes(r, all.clone())));
+          evs.push(OEv::Query(Qry::Edges(r, all.iter().map(|n| (*n, 0)).collect())));
+          evs.push(OEv::Query(Qry::Edges(r, all.iter().rev().map(|n| (*n, BASE - 9 * DAY + 1)).chain(all.iter().map(|n| (*n, 0))).collect())));
+      }
       let (coq, s) = run_session(&mut w, 2, &stamp(evs, BASE)).await;
       push_case(&mut out, "directed-every-kind-before-and-after-auth", coq, s, &profs); finish(w).await; }
     // ---- directed: the peer is the instance's own key on another device (fingerprint), and an unknown key ----
